@@ -170,6 +170,26 @@ def build_corruptions():
             corr("params:unknown", [tr], item.replace("@P@", "definitely_unknown"))
             corr("params:unknown-kv", [tr], item.replace("@P@", "forward = 1"))
             corr("params:literal", [tr], item.replace("@P@", "\"x\""))
+        # duplicates / contradictions of the State-based helper attributes, bare form first and second
+        for tr, at, pre, post in (("Deref", "deref", "pub struct S%s { " % g, " a: %s, b: u8 }" % tyv),
+                                  ("DerefMut", "deref_mut", "pub struct S%s { " % g, " a: %s, b: u8 }" % tyv),
+                                  ("Index", "index", "pub struct S%s { " % g, " a: %s, b: u8 }" % tyv),
+                                  ("IntoIterator", "into_iterator", "pub struct S%s { " % g, " a: %s, b: u8 }" % tyv),
+                                  ("IsVariant", "is_variant", "pub enum E%s { " % g, " A(%s), B }" % ty),
+                                  ("Unwrap", "unwrap", "pub enum E%s { " % g, " A(%s), B }" % ty),
+                                  ("TryUnwrap", "try_unwrap", "pub enum E%s { " % g, " A(%s), B }" % ty),
+                                  ("TryInto", "try_into", "pub enum E%s { " % g, " A(%s), B(u8) }" % tyv)):
+            corr("params:duplicate", [tr], "%s#[%s] #[%s(ignore)]%s" % (pre, at, at, post))
+            corr("params:duplicate", [tr], "%s#[%s(ignore)] #[%s]%s" % (pre, at, at, post))
+            corr("params:duplicate", [tr], "%s#[%s] #[%s]%s" % (pre, at, at, post))
+            corr("params:duplicate-unknown", [tr], "%s#[%s] #[%s(definitely_unknown)]%s" % (pre, at, at, post))
+        corr("params:duplicate", ["TryInto"], "#[try_into(owned)] #[try_into(ref)] pub enum E%s { A(%s), B(u8) }" % (g, tyv))
+        corr("params:duplicate", ["Unwrap"], "#[unwrap] #[unwrap(ref)] pub enum E%s { A(%s), B }" % (g, ty))
+        # corrupted field attributes below a container-level format
+        for bad in ("definitely_unknown", "skip, skip", "skip, ignore", "skip = true", "fmt = \"{}\", 1"):
+            corr("debug:bad-field-attr-under-container-fmt", ["Debug"], "#[debug(\"c\")] pub struct S%s { #[debug(%s)] a: %s, b: u8 }" % (g, bad, ty))
+            corr("debug:bad-field-attr-under-container-fmt", ["Debug"], "pub enum E%s { #[debug(\"c\")] A { #[debug(%s)] a: %s }, B }" % (g, bad, ty))
+            corr("debug:bad-field-attr", ["Debug"], "pub struct S%s { #[debug(%s)] a: %s, b: u8 }" % (g, bad, ty))
         corr("params:forward-on-field", ["Mul"], "pub struct S%s(#[mul(forward)] %s);" % (g, ty))
         corr("error:two-sources", ["Error"], "pub struct S%s { #[error(source)] a: %s, #[error(source)] b: i32 }" % (g, ty))
         corr("error:two-backtraces", ["Error"], "pub struct S%s { #[error(backtrace)] a: %s, #[error(backtrace)] b: i32 }" % (g, ty))
